@@ -1,9 +1,9 @@
 CONSTANTS
-  MaxTok = 3
-  MaxStr = 2
+  MaxTok = 2
+  MaxStr = 1
   MaxRunes = 3
-  MaxPeek = 2
-  RuneKinds = {"p"}
+  MaxPeek = 1
+  RuneKinds = {"p", "e", "b"}
   DecMode = "buffered"
   LineMode = "tracked"
 SPECIFICATION Spec
